@@ -65,5 +65,14 @@ _m = family(4, ("probe",), ["bounds", "pointer"], "m", 1800)     # ~250 s and 14
 for o_ in _m:
     o_.mem_gb = 14          # cbmc's pointer checks make these the memory-hungry ones
 OBLIGATIONS += _m
-LEVEL_TEXT = "x"
-LEVEL_NOTE = "x"
+LEVEL_TEXT = ("Bounded model checking of the real Tree.c: every operation (set of a new and of an existing key, rem, rem of an absent key, get/mem, "
+              "forward/backward iteration, clear, mark, cmp/hash) executed symbolically as one inductive step from EVERY red-black shape with <= 3 nodes "
+              "(quick; iteration also on every shape with <= 6 nodes, removal also on the 4- and 5-node shapes) / <= 6 nodes (thorough, 34 shapes), "
+              "with symbolic keys and values; the post-state is re-derived by an independent bounded in-order walk (search order, parent links, black root, "
+              "no red-red edge, equal black height, count, height <= 2*log2(n+1), key->value map, ownership ledger, node-pool liveness). "
+              "Claims hold for trees within the stated node counts only.")
+LEVEL_NOTE = ("Trusted: cbmc; shapes are enumerated structurally by gen/rbshapes.py (every valid colouring of every binary tree within the node bound), keys/values symbolic; "
+              "the probe element (cmp/assign/destruct/hash replaced by harness callbacks with an ownership ledger, routing to real Int/String instances is C08/C09); "
+              "parent/colour accessors are discharged once (tree.accessors) and replaced by harness equivalents inside the steps (assume-guarantee); "
+              "node calloc/free is a pool of separate cbmc objects; cbmc's own pointer/bounds checks on the steps are probe tier only (tree.*.m*, 14 GB each), "
+              "so memory safety inside the claimed tiers rests on the walk/pool/ledger oracle; trees of more than 6 nodes, String keys, Tree_Assign and allocation failure are out.")
